@@ -14,13 +14,14 @@ vars == <<fam, fault, verdict, phase>>
 
 PFaultAll == {"nmodesAboveRank", "nmodesZero", "nmodesNegative", "nmodesString", "nmodesFloatAboveOne", "nmodesFloatZero",
               "alphaNegative", "alphaAboveOne", "solverUnknown", "fitNumpyInput", "fitListWithNumpy", "dimUnknown", "dimEmpty",
-              "dimNotString", "inverseUnknownMode", "inverseExtraDim", "crossSampleCountMismatch", "transformNumpyInput",
+              "dimNotString", "inverseUnknownMode", "inverseUnknownModeNormalized", "inversePartlyUnknownModes", "inverseExtraDim", "crossSampleCountMismatch", "transformNumpyInput",
               "weightsNumpy"}
 
 IsCross(f) == f \in {"MCA", "CPCCA", "CCA", "RDA"}
 Applies(f, x) ==
     CASE x \in {"alphaNegative", "alphaAboveOne"} -> f = "CPCCA"
       [] x = "crossSampleCountMismatch" -> IsCross(f)
+      [] x \in {"inverseUnknownModeNormalized", "inversePartlyUnknownModes"} -> f \in {"EOF", "ComplexEOF", "POP", "SparsePCA"}
       [] x \in {"inverseUnknownMode", "inverseExtraDim"} -> f \in {"EOF", "ComplexEOF", "MCA", "CPCCA", "POP", "SparsePCA"}
       [] x = "transformNumpyInput" -> f \notin {"HilbertEOF", "ExtendedEOF", "OPA"}
       [] x = "weightsNumpy" -> ~IsCross(f) /\ f # "multiCCA"
